@@ -99,13 +99,14 @@ class WBEnv(Mon):
         # --- O3: terminations only to a requesting master, from the slave its address selects, with that slave's data
         bad_term = 0
         bad_data = 0
+        self.terr = terr = (self.dut.timeout.error if (timeout is not None and getattr(self, "timeout_aware", False)) else 0)
         for i, m in enumerate(ms):
             from_sel = any_([match(j, m.adr) & (Mux(m.ack, s.ack, 0) | Mux(m.err, s.err, 0)) for j, s in enumerate(ss)])
-            bad_term = bad_term | ((m.ack | m.err) & ~(m.cyc & m.stb & from_sel))
+            bad_term = bad_term | ((m.ack | m.err) & ~terr & ~(m.cyc & m.stb & from_sel))
             exp = 0
             for j, s in enumerate(ss):
                 exp = exp | Mux(match(j, m.adr), s.dat_r, 0)
-            bad_data = bad_data | (m.ack & ~m.we & (m.dat_r != exp))
+            bad_data = bad_data | (m.ack & ~m.we & ~terr & (m.dat_r != exp))
         # --- O4: one termination per slave answer: exactly one master sees it
         bad_lost = 0
         for j, s in enumerate(ss):
@@ -113,6 +114,7 @@ class WBEnv(Mon):
             for m in ms:
                 n = n + (match(j, m.adr) & m.cyc & m.stb & ((m.ack & s.ack) | (m.err & s.err)))
             bad_lost = bad_lost | ((s.ack | s.err) & (n != 1))
+        self.bad_lost_expr = bad_lost
         self.bads = {}
         for nme, e in (("slave_sees_master_request", bad_present), ("slave_cyc_in_window", bad_window), ("termination_to_issuer", bad_term),
                        ("read_data_from_selected_slave", bad_data), ("answer_delivered_once", bad_lost)):
